@@ -14,7 +14,7 @@ def _one(item):
         with limit(120):
             return _one_inner(item)
     except (Exception, Timeout) as e:  # noqa: BLE001 - unexpected behaviour of the code under test
-        tag, data = item
+        tag, data = item[:2]
         return {"steps": 0, "refused": 0, "vm_rejected": 0, "pickles": 1,
                 "viol": [(PROP, f"C09|unexpected-exception|{type(e).__name__}", f"{tag}: {type(e).__name__}: {e}",
                           {"engine": "corpus", "kind": "full", "tag": tag, "bytes": data}, len(data))]}
@@ -23,7 +23,8 @@ def _one(item):
 def _one_inner(item):
     import fickling.fickle as fk
 
-    tag, data = item
+    tag, data = item[:2]
+    oob = item[2] if len(item) > 2 else None  # out-of-band buffers (protocol 5) handed to the reference VM
     res = {"steps": 0, "viol": [], "refused": 0, "vm_rejected": 0, "pickles": 1}
     try:
         p = fk.Pickled.load(data)
@@ -31,7 +32,9 @@ def _one_inner(item):
         res["refused"] = 1
         return res
     interp = fk.Interpreter(p)
-    vm = refvm.RefVM(data)
+    import pickle as _pk
+
+    vm = refvm.RefVM(data, buffers=[_pk.PickleBuffer(b) for b in oob] if oob is not None else None)
     names = []
     for k in range(len(p) - 1):
         try:
@@ -71,6 +74,27 @@ def step_oracle(term, out):
         out.violate(*v)
 
 
+def oob_items():
+    """Protocol-5 pickles written with a buffer_callback: NEXT_BUFFER / READONLY_BUFFER take their data out of band.
+    (The pinned tree refuses these opcodes; the items matter as soon as a tree models them.)"""
+    import pickle
+
+    ro, rw = (lambda b: pickle.PickleBuffer(bytes(b))), (lambda b: pickle.PickleBuffer(bytearray(b)))
+    values = {
+        "ro": lambda: ro(b"abc"), "rw": lambda: rw(b"abc"),
+        "list": lambda: [ro(b"ab"), 1, rw(b"cd"), ro(b"ef")],
+        "tuple-top": lambda: (ro(b"ab"), ro(b"cd")),
+        "dict": lambda: {"a": ro(b"x"), "b": [rw(b"y"), ro(b"z")]},
+        "ro-then-mark": lambda: (ro(b"ab"), [1, 2], {"k": ro(b"q")}),
+    }
+    out = []
+    for name, mk in values.items():
+        bufs = []
+        data = pickle.dumps(mk(), protocol=5, buffer_callback=bufs.append)
+        out.append((f"oob/{name}", data, [bytes(b.raw()) if b.raw().readonly else bytearray(b.raw()) for b in bufs]))
+    return out
+
+
 def run(rep, tier):
     items = []
     for i, v in enumerate(corpus.plain_values(tier)):
@@ -79,6 +103,7 @@ def run(rep, tier):
     for i, v in enumerate(corpus.object_values()):
         for tag, b in corpus.pickles_of(v):
             items.append((f"obj[{i}]/{tag}", b))
+    items += oob_items()
     from .. import par
 
     if True:
